@@ -257,6 +257,12 @@ static void run_case(int prog, int var, const unsigned char *in, size_t n)
 
   if (san_hits >= 20 || hang_hits >= 4) return;
   if (prog == POP3D) reset_maildir(1);
+  if (prog == LOCAL && (var & 1)) { /* real delivery forks (and fsyncs) once per mbox / maildir / program line: a generated file with
+                                       more than 100 such lines is run with -n instead */
+    size_t dl = 0;
+    for (size_t i = 0; i < n; i++) if ((i == 0 || in[i - 1] == '\n') && (in[i] == '.' || in[i] == '/' || in[i] == '|')) dl++;
+    if (dl > 100) var = 0;
+  }
   if (prog == LOCAL) {
     put_in(homedir, ".qmail-ext", in, n, 0, 0);
     sin = (const unsigned char *)LOCALMSG; sn = sizeof LOCALMSG - 1;
@@ -833,7 +839,7 @@ static void gen_local(void)
     S(kind[k]); R('x', 100000); S("\n"); EL();
     S("#first\n"); S(kind[k]); R('x', 100000); S("/"); EL();
     for (int v = 0; v < 2; v++) { /* real delivery forks once per mbox line: fewer lines there */
-      for (int i = 0; i < (v ? 300 : level < 2 ? 5000 : 50000); i++) { S(kind[k]); S("l@x.example\n"); }
+      for (int i = 0; i < (v ? 60 : level < 2 ? 5000 : 50000); i++) { S(kind[k]); S("l@x.example\n"); }
       emit(LOCAL, v, B.p, B.n); hbuf_reset(&B);
     }
     for (int i = 0; i < (level < 2 ? 5000 : 50000); i++) { S(kind[k]); S("l@x.example\n"); }
